@@ -37,7 +37,9 @@ Record world := {
   w_doms : list domain;      (* HTTP domain mappings *)
   w_online : list cid;       (* ClientRegistry.clientIDMap: clients that resolve to an authenticated control connection *)
   w_bind : list (N * cid);   (* ClientRegistry.connMap: long-lived connection index -> the ClientID it carries NOW *)
-  w_nm : N; w_nc : N; w_nd : N   (* next fresh object indices *)
+  w_nm : N; w_nc : N; w_nd : N;  (* next fresh object indices *)
+  w_xnode : bool;            (* cluster mode: a bridge manager, the connection state store and the cross-node pool are configured *)
+  w_remote : list cid        (* clients whose control connection is on ANOTHER node (connection state store) *)
 }.
 
 (* the connection a packet arrives on *)
@@ -143,12 +145,12 @@ Definition map_party_ok (p : party) (a : cid) (m : mapping) : bool :=
   end.
 
 Definition with_maps (w : world) (l : list mapping) : world :=
-  {| w_maps := l; w_codes := w_codes w; w_doms := w_doms w; w_online := w_online w; w_bind := w_bind w; w_nm := w_nm w; w_nc := w_nc w; w_nd := w_nd w |}.
+  {| w_maps := l; w_codes := w_codes w; w_doms := w_doms w; w_online := w_online w; w_bind := w_bind w; w_nm := w_nm w; w_nc := w_nc w; w_nd := w_nd w; w_xnode := w_xnode w; w_remote := w_remote w |}.
 Definition with_doms (w : world) (l : list domain) : world :=
-  {| w_maps := w_maps w; w_codes := w_codes w; w_doms := l; w_online := w_online w; w_bind := w_bind w; w_nm := w_nm w; w_nc := w_nc w; w_nd := w_nd w |}.
+  {| w_maps := w_maps w; w_codes := w_codes w; w_doms := l; w_online := w_online w; w_bind := w_bind w; w_nm := w_nm w; w_nc := w_nc w; w_nd := w_nd w; w_xnode := w_xnode w; w_remote := w_remote w |}.
 (* the registry part of the world *)
 Definition with_reg (w : world) (online : list cid) (bind : list (N * cid)) : world :=
-  {| w_maps := w_maps w; w_codes := w_codes w; w_doms := w_doms w; w_online := online; w_bind := bind; w_nm := w_nm w; w_nc := w_nc w; w_nd := w_nd w |}.
+  {| w_maps := w_maps w; w_codes := w_codes w; w_doms := w_doms w; w_online := online; w_bind := bind; w_nm := w_nm w; w_nc := w_nc w; w_nd := w_nd w; w_xnode := w_xnode w; w_remote := w_remote w |}.
 
 (* dns_handler.go getDefaultTargetClientID: first active SOCKS mapping in the client's index (listen or target side) *)
 Definition default_target (a : cid) (l : list mapping) : cid :=
@@ -161,6 +163,18 @@ Definition deliver (self t : cid) (ty : N) (stamp : cid) : list (cid * N * cid) 
 
 Definition C_TunnelOpenRequest : N := 35.
 Definition C_NotifyClient : N := 100.
+(* relays to another node, reported like deliveries with a code >= 1000 *)
+Definition C_RelayTunnelOpen : N := 1035.   (* bridgeManager.BroadcastTunnelOpen: mapping SecretKey + dial address to the cluster *)
+Definition C_RelayDNSQuery : N := 1121.     (* handleDNSQueryCrossNode: DNS query frame to the target's node *)
+
+(* socks5_tunnel_handler.go step 4: local control connection, else (bridge manager configured) broadcast, else refuse *)
+Definition socks_route (w : world) (t : cid) : N :=
+  if memN t (w_online w) then C_TunnelOpenRequest else if w_xnode w then C_RelayTunnelOpen else 0.
+(* dns_handler.go step 3: local control connection; DNSQuery only: else the node the connection state store names *)
+Definition dns_route (w : world) (t : cid) (ty : N) : N :=
+  if t =? 0 then 0
+  else if memN t (w_online w) then ty
+  else if (ty =? 121) && w_xnode w && memN t (w_remote w) then C_RelayDNSQuery else 0.
 
 (* ---- the effects; a = acting identity (already past the row's auth gate) ---- *)
 Definition run (e : effect) (p : party) (a : cid) (w : world) (k : connkind) (c : cmd) : result :=
@@ -193,7 +207,7 @@ Definition run (e : effect) (p : party) (a : cid) (w : world) (k : connkind) (c 
         let n := w_nc w in
         {| res_ok := true;
            res_world := {| w_maps := w_maps w; w_codes := w_codes w ++ [{| c_id := n; c_owner := a; c_act := 0 |}]; w_doms := w_doms w;
-                           w_online := w_online w; w_bind := w_bind w; w_nm := w_nm w; w_nc := n + 1; w_nd := w_nd w |};
+                           w_online := w_online w; w_bind := w_bind w; w_nm := w_nm w; w_nc := n + 1; w_nd := w_nd w; w_xnode := w_xnode w; w_remote := w_remote w |};
            res_dm := []; res_dc := [n]; res_dd := []; res_deliv := [] |}
       else mk false w
   | ECodeList =>
@@ -208,7 +222,7 @@ Definition run (e : effect) (p : party) (a : cid) (w : world) (k : connkind) (c 
         {| res_ok := true;
            res_world := {| w_maps := w_maps w ++ [{| m_id := n; m_listen := a; m_target := c_owner x; m_socks := false; m_sent := 0; m_recv := 0 |}];
                            w_codes := update_code (fun y => {| c_id := c_id y; c_owner := c_owner y; c_act := a |}) i (w_codes w);
-                           w_doms := w_doms w; w_online := w_online w; w_bind := w_bind w; w_nm := n + 1; w_nc := w_nc w; w_nd := w_nd w |};
+                           w_doms := w_doms w; w_online := w_online w; w_bind := w_bind w; w_nm := n + 1; w_nc := w_nc w; w_nd := w_nd w; w_xnode := w_xnode w; w_remote := w_remote w |};
            res_dm := [n]; res_dc := []; res_dd := []; res_deliv := [] |} end end
   | ETraffic =>
       match k_obj c with None => mk true w | Some i =>
@@ -221,9 +235,9 @@ Definition run (e : effect) (p : party) (a : cid) (w : world) (k : connkind) (c 
       match k_obj c with None => mk false w | Some i =>
       match find_map i (w_maps w) with None => mk false w | Some m =>
       if map_party_ok p a m then
-        if memN (m_target m) (w_online w)
+        if negb (socks_route w (m_target m) =? 0)
         then {| res_ok := true; res_world := w; res_dm := []; res_dc := []; res_dd := [];
-                res_deliv := deliver self (m_target m) C_TunnelOpenRequest 0 |}
+                res_deliv := deliver self (m_target m) (socks_route w (m_target m)) 0 |}
         else mk false w
       else mk false w end end
   | EDnsForward =>
@@ -231,8 +245,9 @@ Definition run (e : effect) (p : party) (a : cid) (w : world) (k : connkind) (c 
       let t := match k_tgt c with
                | Some t => match p with PReach => if reaches a t (w_maps w) then t else 0 | _ => t end
                | None => if a =? 0 then 0 else default_target a (w_maps w) end in
-      if negb (t =? 0) && memN t (w_online w)
-      then {| res_ok := okf; res_world := w; res_dm := []; res_dc := []; res_dd := []; res_deliv := deliver self t (k_type c) 0 |}
+      if negb (dns_route w t (k_type c) =? 0)
+      then {| res_ok := okf; res_world := w; res_dm := []; res_dc := []; res_dd := [];
+              res_deliv := deliver self t (dns_route w t (k_type c)) 0 |}
       else mk okf w
   | ENotify =>
       match k_tgt c with None => mk false w | Some t =>
@@ -243,7 +258,7 @@ Definition run (e : effect) (p : party) (a : cid) (w : world) (k : connkind) (c 
         let n := w_nd w in
         {| res_ok := true;
            res_world := {| w_maps := w_maps w; w_codes := w_codes w; w_doms := w_doms w ++ [{| d_id := n; d_owner := a |}];
-                           w_online := w_online w; w_bind := w_bind w; w_nm := w_nm w; w_nc := w_nc w; w_nd := n + 1 |};
+                           w_online := w_online w; w_bind := w_bind w; w_nm := w_nm w; w_nc := w_nc w; w_nd := n + 1; w_xnode := w_xnode w; w_remote := w_remote w |};
            res_dm := []; res_dc := []; res_dd := [n]; res_deliv := [] |}
       else mk false w
   | EDomDelete =>
@@ -433,3 +448,40 @@ Definition exec_faulty (open : bool) (tbl : list row) (w : world) (k : connkind)
              else run (r_eff r) (r_party r) a w k c
       end
   end.
+
+(* ------------------------------------------------------------------------------------------------------------- *)
+(* the order of a handler's steps: reads, THE party/identity check, externally visible effects                    *)
+(* ------------------------------------------------------------------------------------------------------------- *)
+Inductive pstep := SRead | SCheck | SEmit (code : N).
+(* what a run of the program emits for a sender that is / is not entitled by its proven identity *)
+Fixpoint emitted (entitled : bool) (prog : list pstep) : list N :=
+  match prog with
+  | [] => []
+  | SRead :: p => emitted entitled p
+  | SCheck :: p => if entitled then emitted entitled p else []
+  | SEmit e :: p => e :: emitted entitled p
+  end.
+(* no effect is emitted before the check *)
+Fixpoint check_first (prog : list pstep) : bool :=
+  match prog with [] => true | SRead :: p => check_first p | SCheck :: _ => true | SEmit _ :: _ => false end.
+
+(* HandleSOCKS5TunnelRequest, the branches after the mapping lookup (socks5_tunnel_handler.go steps 2-6):
+   target local: read mapping, check source = ListenClientID, look the target up, write TunnelOpenRequest to it
+   target on another node: ..., look the target up (absent), bridgeManager.BroadcastTunnelOpen *)
+Definition socks_prog_local : list pstep := [SRead; SCheck; SRead; SEmit C_TunnelOpenRequest].
+Definition socks_prog_remote : list pstep := [SRead; SCheck; SRead; SEmit C_RelayTunnelOpen].
+(* HandleDNSQueryRequest with the target on another node: parse, check sender (identity + mapping towards the target),
+   local lookup (absent), FindClientNode, frame to the node *)
+Definition dnsquery_prog_remote : list pstep := [SCheck; SRead; SRead; SEmit C_RelayDNSQuery].
+(* the refuted order (a seeded breaking change): "return early when the target is offline" — target lookup and the
+   cross-node relay moved in front of the listen-client check *)
+Definition socks_prog_remote_relay_first : list pstep := [SRead; SRead; SEmit C_RelayTunnelOpen; SCheck].
+
+(* the same variant on the executable model: SOCKS5 request where the relay precedes the party check *)
+Definition socks_relay_first (w : world) (k : connkind) (c : cmd) : result :=
+  match k_obj c with None => mk false w | Some i =>
+  match find_map i (w_maps w) with None => mk false w | Some m =>
+  if negb (memN (m_target m) (w_online w)) && w_xnode w
+  then {| res_ok := true; res_world := w; res_dm := []; res_dc := []; res_dd := [];
+          res_deliv := deliver (conn_identity w k) (m_target m) C_RelayTunnelOpen 0 |}
+  else run ESocksOpen PMapListen (conn_identity w k) w k c end end.
